@@ -270,6 +270,10 @@ func c20Run(c *core.C) {
 				return
 			}
 			if op == 3 || op == 5 {
+				// (these two parents also carry one attenuation block already)
+				if p2, aerr := parent.Append(lib.NewDetRand(c.Seed, fmt.Sprintf("c20-parent-block-%d", c.Idx)), ast.Block{Facts: []ast.Pred{ast.P("note", ast.Int(1))}}); aerr == nil {
+					parent = p2
+				}
 				parent, perr = parent.Reload()
 				if perr != nil {
 					err = perr
